@@ -28,11 +28,11 @@ def shapeOfFlags : List Bool → Shape
 def qtyToTy (q : Engine.QTy) : Ty := Ty.ofShape (nameBytes q.base) (shapeOfFlags q.nulls)
 
 /-- `Type::is_valid_value` on a `QTy`. -/
-def validValueQ (q : Engine.QTy) (v : Value) : Outcome Bool := isValidValue (qtyToTy q) v
+def validValueQ (q : Engine.QTy) (v : Value) : Ty.Outcome Bool := isValidValue (qtyToTy q) v
 
 /-- `InterpretedQuery::from_query_and_arguments` on `QTy`-typed variables. -/
 def validateQ (vars : List (Engine.Name × Engine.QTy)) (args : List (Engine.Name × Value)) :
-    Outcome (Except (ArgsError Engine.Name) Unit) :=
+    Ty.Outcome (Except (ArgsError Engine.Name) Unit) :=
   validate (vars.map fun nq => (nq.1, qtyToTy nq.2)) args
 
 /-- The variant names of the errors, in order (what `Engine.validateArgs` reports). -/
